@@ -7,7 +7,7 @@ import CaddyModel.C05.Model
 namespace CaddyModel.C05
 
 /-- GET a.test /a, no X-T header -/
-def wReq : Req := ⟨0, 0, 1, 0, [], none⟩
+def wReq : Req := ⟨0, 0, 1, 0, [], none, none⟩
 
 /-- A subroute WITH error routes (handler 1 passes; its error route runs handler 9), followed by a
     route whose handler 3 fails with 404.  The failure happens BEHIND the subroute. -/
@@ -21,6 +21,14 @@ def wRewriteRoutes : List Route :=
   [ .mk 0 [] [.rewrite 1 3, .sub [.mk 0 [] [.fail 2 500] false] true [.mk 0 [] [.fail 3 404] false]] false ]
 
 def wRewriteErrs : List Route := [ .mk 0 [] [.pass 4] false ]
+
+/-- A subroute whose handler 1 fails with a `HandlerError` 404 and whose error route (handler 2)
+    fails again with a plain error; the server's error routes: handler 3 passes on, then the real
+    `static_response` handler answers with status "{http.error.status_code}". -/
+def wStaleRoutes : List Route :=
+  [ .mk 0 [] [.sub [.mk 0 [] [.fail 1 404] false] true [.mk 0 [] [.fail 2 0] false]] false ]
+
+def wStaleErrs : List Route := [ .mk 0 [] [.pass 3, .answer .errCode] false ]
 
 /-- the same two matchers in two orders: a host matcher that does not match `wReq`, and an
     error matcher -/
